@@ -24,6 +24,7 @@ def check(rep):
               f"recompile uses the fixed layout expose={exps.get('recompile')}; generate_code passes its parameter ({exps.get('generate_code')})",
               text=str(exps))
     rep.assume("black.format_str is AST-preserving (its own safety check) - trusted")
+    ctx.raise_deferred()
     return ("Sibling agreement: for every shape both layouts instantiate to modules that parse, define the function named by the "
             "experiment, bind every name they read (closure in the nested layout, parameters in the exposed one), and have identical "
             "signature, helper body, key and call; the header imports every free name and each import resolves; the evaluator module "
